@@ -494,6 +494,32 @@ def c15_history(prop, key, index, tier):
             held.append(gen)
             steps.append('scan abandoned after one job')
             out.count('scans abandoned half-way (generator kept)')
+        elif r < 0.62 and any(req.values()):
+            # one requirement replaced by another between two questions: every
+            # count a memo could be keyed on (jobs, requirements per job, or
+            # edges in all) is the same before and after, only the graph differs
+            a = rng.choice([x for x in range(n) if req[x]])
+            b = rng.choice(sorted(req[a]))
+            if rng.random() < 0.6:
+                cands = [c for c in range(n) if c != a and c not in req[a]]
+                if cands:
+                    c = rng.choice(cands)
+                    req[a].discard(b)
+                    jobs[a].requires(jobs[b], remove=True)
+                    req[a].add(c)
+                    jobs[a].requires(jobs[c])
+                    steps.append('rewire n%d->n%d to n%d->n%d' % (a, b, a, c))
+                    out.count('requirements replaced one for one before asking again')
+            else:
+                cands = [(c, d) for c in range(n) for d in range(n) if c != d and c != a and d not in req[c]]
+                if cands:
+                    c, d = rng.choice(cands)
+                    req[a].discard(b)
+                    jobs[a].requires(jobs[b], remove=True)
+                    req[c].add(d)
+                    jobs[c].requires(jobs[d])
+                    steps.append('move edge n%d->n%d to n%d->n%d' % (a, b, c, d))
+                    out.count('edges moved to another job (same total) before asking again')
         else:
             a, b = rng.sample(range(n), 2)
             if b in req[a]:
